@@ -120,5 +120,47 @@ def lookupSrc (sg : Search) (xs : List Pair) (g : Int) : Outcome :=
         | none => .ub
         | some e => if t.eval (envSearch xs.length low 0 probe e g) then actSrc xs low sg.missAct else actSrc xs low sg.foundAct
 
+/-! ### endResize(): its container statements in source order -/
+
+def Call.apply : Call → ISet → ISet
+  | .sortNew, s => { s with fresh := sortFresh s.fresh }
+  | .merge, s => DV.C03.merge s
+  | .unknown, s => s
+
+def runCalls (cs : List Call) (s : ISet) : ISet := cs.foldl (fun s c => c.apply s) s
+
+/-! ### renumberLocal(): the loop with start value, increment and assigned expression from the source -/
+
+def envIndex (i : Int) : Env := { i := fun v => match v with | .index => i | _ => 0, b := fun _ => false }
+
+def renumSrc (r : Renum) : Int → List Pair → List Pair
+  | _, [] => []
+  | i, p :: ps => setLoc p (r.value.eval (envIndex i)).toNat :: renumSrc r (i + r.step) ps
+
+/-! ### the constructors of GlobalLookupIndexSet -/
+
+def envTable (size loc arg : Int) : Env :=
+  { i := fun v => match v with | .size => size | .locNo => loc | .tsize => arg | _ => 0, b := fun _ => false }
+
+/-- `for(pair : indexSet_) size_ = std::max<std::size_t>(size_, <e>)` -/
+def foldMaxSrc (e : IE) : List Pair → Int → Int
+  | [], m => m
+  | p :: ps, m => foldMaxSrc e ps (max m (e.eval (envTable 0 p.l.loc 0)))
+
+/-- `for(pair : indexSet_) indices_[<slot>] = &*pair`; `none` = write outside `indices_` -/
+def fillSrc (slot : IE) : List Pair → List (Option Pair) → Option (List (Option Pair))
+  | [], t => some t
+  | p :: ps, t =>
+    let i := slot.eval (envTable 0 p.l.loc 0)
+    if i < 0 then none else (setAt p i.toNat t).bind (fillSrc slot ps)
+
+/-- a whole constructor: the table and the final `size_` -/
+def tableSrc (c : TableCtor) (arg : Nat) (xs : List Pair) : Option (List (Option Pair) × Int) :=
+  let s0 := c.sizeInit.eval (envTable 0 0 arg)
+  let s1 := match c.foldMax with | none => s0 | some e => foldMaxSrc e xs s0
+  let n := c.cells.eval (envTable s1 0 arg)
+  if n < 0 then none
+  else (fillSrc c.slot xs (List.replicate n.toNat none)).map fun t => (t, c.sizeFinal.eval (envTable s1 0 arg))
+
 end Src
 end DV.C03
